@@ -200,7 +200,12 @@ def render_attrs(d):
         for i, r in enumerate(d["val"]):
             k = r["k"]
             if k in ("greater", "greater_or_equal", "less", "less_or_equal", "len_char_min", "len_char_max"):
-                if r.get("sp", "lit") == "expr":
+                if r.get("sp", "lit") in ("shl", "and", "plus"):
+                    a, n = r["p"]
+                    nm = {"shl": "ONE", "and": "MASKED", "plus": "KP"}[r["sp"]] + str(i)
+                    items.append("const %s: %s = %s;" % (nm, d["ty"], a))
+                    vals.append("%s = %s" % (k, {"shl": "%s << %d" % (nm, n), "and": "%s & 0x%02x" % (nm, n), "plus": "%s + %d" % (nm, n)}[r["sp"]]))
+                elif r.get("sp", "lit") == "expr":
                     nm = cname()
                     cty = "usize" if d["fam"] == "string" else d["ty"]
                     items.append("const %s: %s = %s;" % (nm, cty, val_src(d, r["b"], lit=False)))
